@@ -685,3 +685,4 @@ PROPS["C08"]["rule"] += " A property written as a fact may carry a deleteWith of
 PROPS["C14"]["rule"] += " Values in which one object occurs twice (shared, not circular) must come back intact; the self-referring family includes function values with properties."
 PROPS["C12"]["rule"] += " In a quarter of the workloads every rule has two actions (which run in parallel) that both write into the object the rule's `when` binds from the event."
 PROPS["C12"]["rule"] += " The fact-writing actions store a value bound from the event and keep writing to it afterwards; the final comparison of memory and storage compares whole contents."
+PROPS["C18"]["rule"] += " The js requests include scripts that need a library of the location's control, named in a `libraries` list."
